@@ -27,8 +27,13 @@ META = {
     "note": "Trusted: Lean kernel + {propext, Classical.choice, Quot.sound}; IEEE rounding is not modelled "
     "(theorems are over exact rationals, doubles are sampled); float log2 is modelled by its exact value "
     "(inputs < 2^48 in the harness); LAPACK lstsq/cholesky/inv are parameters (the executable instance "
-    "solves the normal equations exactly; real results are compared after rounding to 2^-20 on dyadic "
-    "inputs and by residual otherwise); sqrt enters only as a witness; norm_xy (uses sqrt/mean) is not modelled.",
+    "solves the normal equations exactly and is not proved to be a minimiser; real results are compared after "
+    "rounding to 2^-20 on dyadic inputs and by residual otherwise); sqrt enters only as a witness; norm_xy "
+    "(sqrt, mean) is not modelled, its contract (mean 0, mean distance sqrt 2, finite) is checked by the oracle.  "
+    "The model follows /repo after two repairs found by this check: Poly2d ignored off-diagonal input-transform "
+    "terms below an absolute 1e-6 (e4d32c2) and norm_xy broke Poly2d.fit for point sets containing their "
+    "centroid (1cb55fb); replays of both are in corpus/C20.  The strict 'minimal' bound of snap_grid excludes "
+    "the zero-width interval with tol = 0 (equality there, proved and exercised).",
     "technique": "Lean 4 proof over hand model + exhaustive/random differential correspondence with real code",
     "design_ref": "DESIGN.md §4 C20",
 }
